@@ -8,6 +8,7 @@
 mod engines {
 	pub mod chunker;
 	pub mod output;
+	pub mod cli;
 	pub mod encoding;
 	pub mod faults;
 	pub mod transcode;
@@ -29,6 +30,10 @@ mod props {
 	pub mod c11;
 	pub mod c09;
 	pub mod c18;
+	pub mod c13;
+	pub mod c14;
+	pub mod c15;
+	pub mod c16;
 }
 mod corpus;
 mod gen;
@@ -123,6 +128,10 @@ fn real_main() {
 				engines::msgpack::run_decode(&mut out, &mut rng.fork(), thorough);
 				props::c18::run(&mut out, &mut rng.fork(), thorough);
 			}
+			"C13" => props::c13::run(&mut out, &mut rng.fork(), thorough),
+			"C14" => props::c14::run(&mut out, &mut rng.fork(), thorough),
+			"C15" => props::c15::run(&mut out, &mut rng.fork(), thorough),
+			"C16" => props::c16::run(&mut out, &mut rng.fork(), thorough),
 			_ => {
 				eprintln!("unknown property {prop}");
 				std::process::exit(3);
